@@ -1755,4 +1755,41 @@ theorem addAll_gate (xs : List (Gene ν)) : ∀ g : Genome ν,
       unfold addGene; split <;> exact ⟨rfl, rfl, rfl⟩
     exact ⟨h1.trans e.1, h2.trans e.2.1, h3.trans e.2.2⟩
 
+/-! ### the scenarios behind the evaluated gate table (Operon/Gen/GenomeTables.lean)
+
+The harness runs exactly these scenarios on the real `Genome` class on every run (extract/eval_genome.py) and writes
+what it observed into `Gen.gateTable`; `c20_gate_agrees_with_evaluated_source` states that the model computes the
+same. -/
+
+/-- a callback that always gives the same answer -/
+def gateEnv (ans : Option Ans) : Env Nat :=
+  { adv := fun _ _ _ _ _ _ => ans.getD .refuse, rnd := fun _ _ _ => none, veq := fun a b => a == b,
+    isNone := fun _ => false }
+
+/-- the call whose gate decision is observed: 0 `mutate(t, 7)`, 1 `rollback_mutation(t)`, 2 `add_gene(Gene(t, 9))` -/
+def gateProbe : Nat → Op Nat
+  | 0 => .mutate 0 0 7
+  | 1 => .rollback 0 0
+  | _ => .add 0 ⟨0, 9, .structural, false, .normal⟩
+
+/-- how the genome got its settings: from the constructor, or ASSIGNED to the public attributes of a genome that was
+    built open and mutated once (1 → 5) -/
+def gateSetup (allow : Bool) (ans : Option Ans) (late : Bool) : List (Op Nat) :=
+  if late then
+    [.new true none false [⟨0, 1, .structural, false, .normal⟩], .mutate 0 0 5, .assign 0 (.allow allow),
+     .assign 0 (.cb (ans.map fun _ => 0))]
+  else [.new allow (ans.map fun _ => 0) false [⟨0, 1, .structural, false, .normal⟩]]
+
+/-- (return value, `none` = raised; approved-flags of the log entries the call appended; stored value afterwards) -/
+def gateScenario (op : Nat) (allow : Bool) (ans : Option Ans) (late : Bool) : Option Bool × List Bool × Nat :=
+  let env := gateEnv ans
+  let st := run env Store.empty (gateSetup allow ans late)
+  let r := step env st (gateProbe op)
+  let ret := match r.2 with
+    | .ret b => some b
+    | _ => none
+  let n0 := (st.genomes[0]?.map (·.log.length)).getD 0
+  (ret, (r.1.genomes[0]?.map fun g => (g.log.drop n0).map (·.approved)).getD [],
+   (r.1.genomes[0]?.bind fun g => valueOf g 0).getD 0)
+
 end Operon.Genome
